@@ -1,6 +1,6 @@
 """C19 - geodetic <-> authalic and lon/lat <-> sphere conversions are exact inverses."""
 import math
-from .. import core, geo
+from .. import core, gen, geo
 
 LEVEL = "proof"
 
@@ -12,7 +12,10 @@ def run(run):
     n = run.n(4000, 400000)
     half = math.pi / 2
     grid = sorted(set([-half, half, 0.0, -0.0] + [half - 10.0 ** -k for k in range(1, 16)] + [-(half - 10.0 ** -k) for k in range(1, 16)]
-                      + [half * (2 * i / n - 1) for i in range(n + 1)] + [rng.uniform(-half, half) for _ in range(n // 4)]))
+                      + [half * (2 * i / n - 1) for i in range(n + 1)] + [rng.uniform(-half, half) for _ in range(n // 4)]
+                      # both signs, every magnitude down to the smallest subnormal, around zero (and a few around the 45th parallel)
+                      + [sg * 10.0 ** -k for k in range(3, 324, 3) for sg in (1, -1)] + [sg * 2.0 ** -e for e in (52, 53, 54, 1022, 1074) for sg in (1, -1)]
+                      + [sg * (half / 2 + d) for d in (1e-15, -1e-15, 1e-12) for sg in (1, -1)]))
     reqs = [f"authalic_forward {geo.hx(p)}" for p in grid]
     impl, model = core.both(run, reqs, "authalic_forward")
     fwd = []
@@ -60,8 +63,8 @@ def run(run):
     for _ in range(run.n(1500, 100000)):
         # near the poles the distance is drawn log-uniformly over 13 decades (a snap / clamp radius can sit at any scale: the colatitude
         # there is ~ 1.75e-2 * distance in degrees, so 1e-12 rad is reached near 6e-11 deg)
-        near = 10.0 ** rng.uniform(-15.0, -2.0)
-        pts.append((rng.choice([rng.uniform(-540, 540), rng.uniform(-180, 180), -180.0, 180.0, 0.0]),
+        near = 10.0 ** rng.uniform(-15.0, -2.0) if rng.random() < 0.8 else 10.0 ** rng.uniform(-320.0, -15.0)      # down to subnormals
+        pts.append((rng.choice([rng.uniform(-540, 540), rng.uniform(-180, 180), -180.0, 180.0, 0.0, rng.uniform(-180, 180) + 360.0 * gen.turns(rng)]),
                     rng.choice([rng.uniform(-90, 90), 90 - rng.uniform(0, 1e-6), -90 + rng.uniform(0, 1e-6), 90 - near, -90 + near, 90 - near, -90 + near, near, -near])))
     sreq = [f"from_lonlat {geo.hx(lo)} {geo.hx(la)}" for lo, la in pts]
     simpl, smodel = core.both(run, sreq, "from_lonlat")
@@ -77,7 +80,10 @@ def run(run):
         lo2, la2 = geo.fx(t[1]), geo.fx(t[2])
         d = geo.ang(geo.sphere_vec(lo, la), geo.sphere_vec(lo2, la2))
         worst_pt = max(worst_pt, d)
-        if not d <= 1e-12:
+        # beyond the property's longitude range [-540, 540] one unit in the last place of the longitude itself is more than 1e-12 rad:
+        # there the round trip is held to 4 ulp of the given longitude
+        tol = 1e-12 if abs(lo) <= 540.0 else 1e-12 + 4 * math.ulp(math.radians(lo))
+        if not d <= tol:
             run.violation(f"lon/lat -> sphere -> lon/lat moves the point by {d:.3e} rad", q, f"({lo!r},{la!r}) -> ({lo2!r},{la2!r})")
     run.rule = ("latitude grid: %d equally spaced points on [-pi/2, pi/2], endpoints, pi/2 - 10^-k for k = 1..15, random; forward, inverse of forward, forward of the negated value; "
                 "closed-form WGS84 authalic latitude (independent, pole-safe evaluation) for |lat| <= 89 deg; lon/lat pairs with lon in [-540, 540] incl. poles, within 1e-6 deg of them and at log-uniform distances 1e-15..1e-2 deg from them and from the equator; "
